@@ -228,6 +228,23 @@ pub fn rebaseline() {
     }
 }
 
+/// Like `rebaseline`, for points where short-lived tasks may still be finishing: takes the
+/// minimum number of alive tasks seen over a short window (transient tasks only ever add).
+pub async fn rebaseline_settled() {
+    let mut min = alive_tasks();
+    for _ in 0..40 {
+        tokio::time::sleep(Duration::from_micros(250)).await;
+        min = min.min(alive_tasks());
+    }
+    let id = tokio::runtime::Handle::current().id();
+    let mut g = BASELINES.lock().unwrap();
+    if let Some(e) = g.iter_mut().find(|e| e.0 == id) {
+        e.1 = min as u64;
+    } else {
+        g.push((id, min as u64));
+    }
+}
+
 pub fn baseline() -> usize {
     let id = tokio::runtime::Handle::current().id();
     BASELINES.lock().unwrap().iter().find(|e| e.0 == id).map(|e| e.1 as usize).unwrap_or(0)
